@@ -764,3 +764,137 @@ def _dominating_edge(S, m, root, cell, pt):
 
 def _reaches_test_first(m, root, pt):
     return m is not root or pt[0] != 0
+
+
+# ---------------------------------------------------------------------------------- FIRST-MAPPED (C08)
+
+def _original_some_edge(m, pt, mapping_param=2):
+    """is pt dominated by an edge that establishes `mapping.original` is Some?"""
+    dom = m.dom().get(pt[0], set())
+    for d in dom:
+        t = m.term(d)
+        if t['k'] != 'switch' or t['d']['k'] not in ('copy', 'move'):
+            continue
+        e = m.expr_of_operand(t['d'])
+        # the tested value must derive from the `original` field of the closure's Mapping parameter
+        derives = any(x[0] == 'field' and x[2] == 'original' and any(y[0] == 'arg' and y[1] == mapping_param for y in walk(x[1]))
+                      for x in walk(e))
+        if not derives:
+            continue
+        zero_t = [x[1] for x in t['targets'] if x[0] == 0]
+        one_t = [x[1] for x in t['targets'] if x[0] == 1]
+        top = e
+        while top[0] in ('cast', 'ref', 'deref'):
+            top = top[1]
+        good = []
+        if top[0] == 'discr':
+            good = one_t or ([t['otherwise']] if zero_t else [])
+        elif top[0] == 'call' and top[1].rsplit('::', 1)[-1] == 'is_none':
+            good = zero_t
+        elif top[0] == 'call' and top[1].rsplit('::', 1)[-1] == 'is_some':
+            good = [t['otherwise']] if zero_t else one_t
+        for g in good:
+            if (g == pt[0] or g in dom) and len(m.preds(g)) == 1:
+                return True
+    return False
+
+
+def rule_first_mapped(ctx):
+    f = ctx.facts()
+    r = RuleResult('FIRST-MAPPED', 'the line-only variants keep each line\'s first *mapped* segment: the per-line cursor they advance from a '
+                                   'segment\'s generated line is advanced only for segments that have an original location')
+    r.floor = 1
+    ann, sm = map_announcers(f)
+    for b, params, src_cbs in ann:
+        if any(kind == 'name' for _, _, kind, _ in callback_calls(b)):
+            continue  # column variants
+        for m in group_of(f, b):
+            if m.d['kind'] != 'Closure' or m.arg_count < 2 or 'Mapping' not in m.local_ty(2):
+                continue
+            for pt, s in m.points():
+                if s['k'] != 'assign' or not s['p']['pr']:
+                    continue
+                # write through a by-ref upvar of integer type
+                if 'u32' not in s['p']['ty'] and 'usize' not in s['p']['ty']:
+                    continue
+                e = m.expr_of_operand(s['r']['o']) if s['r']['k'] == 'use' else None
+                if e is None:
+                    continue
+                from_line = any(x[0] == 'field' and x[2] == 'generated_line' and any(y[0] == 'arg' and y[1] == 2 for y in walk(x[1]))
+                                for x in walk(e))
+                if not from_line or s['p']['l'] == 2:
+                    continue
+                ok = _original_some_edge(m, pt)
+                r.site('%s: line cursor advanced from a segment only when that segment is mapped' % m.path, s['s'], 'ok' if ok else 'violation')
+                if not ok:
+                    r.violation('%s:cursor' % b.path, s['s'], m.path,
+                                'the per-line cursor is advanced from a segment\'s generated line without establishing that the segment has '
+                                'an original: a line that starts with an unmapped segment loses its first mapped segment (columns=false)')
+    r.check_floor()
+    return r
+
+
+# ---------------------------------------------------------------------------------- NAMECHECK (C09)
+
+def rule_namecheck(ctx):
+    f = ctx.facts()
+    r = RuleResult('NAMECHECK', 'combined maps use an outer name for an inner-mapped segment only where the original text equals that name: every '
+                                'lookup of the outer name table that can reach the name index of an inner-mapped location is dominated by '
+                                'that comparison')
+    r.floor = 1
+    comps, ol = composites(f)
+    for root, members, inner in comps:
+        org = Origins(f, members)
+        # outer name tables: filled by the name-kind closure passed directly by the root
+        outer_tables = set()
+        for m in inner:
+            if closure_kind(m) == 'name' and m.d.get('parent') == root.path:
+                for pt, t in m.calls():
+                    c = t.get('callee')
+                    if c and c['name'] == 'insert' and len(t['args']) == 3:
+                        outer_tables.add(org.table_root(m.expr_of_operand(t['args'][0])))
+        if not outer_tables:
+            continue
+        for m in members:
+            for pt, s in m.points():
+                if not (s['k'] == 'assign' and s['r']['k'] == 'agg' and s['r'].get('path') == ol):
+                    continue
+                ops = dict(zip(s['r']['fields'], s['r']['ops']))
+                ol_origin = org.origin(m.expr_of_operand(ops['original_line']))
+                if ol_origin & {'LOCAL', 'LOCAL?'}:
+                    continue  # pass-through location: its line is the outer mapping's own
+                ne = m.expr_of_operand(ops['name_index'])
+                lookups = [x for x in walk(ne) if x[0] == 'call' and x[1].rsplit('::', 1)[-1] == 'get' and x[2]
+                           and org.table_root(x[2][0]) in outer_tables and isinstance(x[3], tuple)]
+                seen = set()
+                for x in lookups:
+                    gpt = x[3]
+                    if gpt in seen:
+                        continue
+                    seen.add(gpt)
+                    ok = False
+                    for d in m.dom().get(gpt[0], set()):
+                        t = m.term(d)
+                        if t['k'] != 'switch' or t['d']['k'] not in ('copy', 'move'):
+                            continue
+                        e = m.expr_of_operand(t['d'])
+                        top = e
+                        while top[0] in ('cast', 'ref', 'deref'):
+                            top = top[1]
+                        if top[0] == 'call' and top[1].rsplit('::', 1)[-1] in ('eq', 'ne') and \
+                                any(y[0] == 'call' and y[1].rsplit('::', 1)[-1] == 'get' and y[2] and org.table_root(y[2][0]) in outer_tables
+                                    for a in top[2] for y in walk(a)):
+                            zero_t = [z[1] for z in t['targets'] if z[0] == 0]
+                            good = [t['otherwise']] if top[1].endswith('eq') else zero_t
+                            for g in good:
+                                if (g == gpt[0] or g in m.dom().get(gpt[0], set())) and len(m.preds(g)) == 1:
+                                    ok = True
+                    site = m.term(gpt[0])['s'] if gpt[1] == len(m.stmts(gpt[0])) else s['s']
+                    r.site('%s: outer-name lookup feeding an inner-mapped location is guarded by the text comparison' % m.path, site,
+                           'ok' if ok else 'violation')
+                    if not ok:
+                        r.violation('%s:outer-name' % root.path, site, m.path,
+                                    'an outer name index can reach the name of an inner-mapped segment without the comparison of that name '
+                                    'with the original text: a name is attached to original text that differs from it')
+    r.check_floor()
+    return r
